@@ -9,7 +9,7 @@ EXPLANATION = ("proved: SatCacheMixin._add / unsat_core keep the cached core a t
                "Z3-term table at the constraint being added whatever it held before; bounded: tracked plain/composite/hybrid solvers driven to unsat in every add order")
 TECHNIQUE = "mixin-in-isolation proof of the core invariant + bounded run-time contracts"
 RULE = _rtc.RTC_RULE
-FUNCTIONS = ["SatCacheMixin._add", "SatCacheMixin.unsat_core", "SatCacheMixin.simplify", "BackendZ3.add (tracked term table)"]
+FUNCTIONS = ["SatCacheMixin._add", "SatCacheMixin.unsat_core", "SatCacheMixin.simplify", "BackendZ3.add (tracked term table)", "BackendZ3._add (track=True)", "BackendZ3._unsat_core"]
 TRUSTED = _rtc.RTC_TRUSTED + ["Z3's unsat cores; ghost solver: assert_and_track / assertions / unsat_core as documented by Z3; a live Z3 term's address identifies it"]
 ASSUMPTIONS = ["BackendZ3._add(track=True)/_unsat_core are proved over a ghost solver in which the 32-bit hashes of different terms may coincide (z3solve.BackendZ3._add[track]...)"]
 
